@@ -115,10 +115,7 @@ func compareSolo(x *X, i int, op Op, o, solo *Outcome, data []store.Series) {
 	}
 	if o.Res != nil && solo.Res != nil {
 		if d := Compare(o.Res, solo.Res, Tol); d.Kind != "" {
-			if op.hasTopK() && tieAmbiguous(op, data, op.Eng.LookbackMs) {
-				return
-			}
-			if d.Kind == "value" && orderSensitive(op, data, RefQuery(op, data, op.Eng.LookbackMs).Res) {
+			if x.undecidable(op, data) {
 				return
 			}
 			x.Viol("C12", "isolation", d.Kind+"|"+Shape(op.Q), fmt.Sprintf("%s: result differs from the result of the same query run alone: %s", desc, d.Detail))
@@ -437,7 +434,7 @@ func historyMain(x *X) {
 						x.R.Nontrivial = true
 					}
 					if d := Compare(o.Res, fo.Res, Tol); d.Kind != "" {
-						if !(op.hasTopK() && tieAmbiguous(op, cur, eng0.LookbackMs)) && !(d.Kind == "value" && orderSensitive(op, cur, RefQuery(op, cur, eng0.LookbackMs).Res)) {
+						if !x.undecidable(op, cur) {
 							x.Viol("C20", "fresh-engine-differs", d.Kind+"|"+Shape(op.Q), fmt.Sprintf("%s: differs from a freshly constructed engine on the current data: %s", desc, d.Detail))
 						}
 					}
